@@ -94,7 +94,13 @@ Definition mode_is (m : fmode) (o : option finfo) : bool :=
 Definition elem_field_for (space local : bytes) (o : option finfo) : bool :=
   match o with Some fi => match fi_mode fi with MElem | MAny => name_matches fi space local | _ => false end | None => false end.
 
-Definition direct_text (kids : list rnode) : bytes := flat_map (fun n => match n with RText s => s | RElem _ _ _ _ => [] end) kids.
+(** the character data directly inside an element, concatenated (a single text child is returned as it is) *)
+Fixpoint direct_text (kids : list rnode) : bytes :=
+  match kids with
+  | [] => []
+  | RText s :: r => match r with [] => s | _ => s ++ direct_text r end
+  | RElem _ _ _ _ :: r => direct_text r
+  end.
 
 Section Struct.
   Variable sch : schema.
